@@ -233,12 +233,26 @@ fn start(bin: &Path, bc: &BCase, dir: &Path, clients: &[Uuid]) -> Result<Proc, F
 }
 
 fn ext_driver(dir: &Path, cfg: &Cfg, addrs: Vec<SocketAddr>) -> Result<Driver, Fail> {
+    ext_driver_ka(dir, cfg, addrs, false)
+}
+
+/// `keep_alive`: all requests (whoever the client) travel over one persistent connection per
+/// listen address, as behind a connection-pooling proxy.
+fn ext_driver_ka(dir: &Path, cfg: &Cfg, addrs: Vec<SocketAddr>, keep_alive: bool) -> Result<Driver, Fail> {
     let mut drv = Driver::with_factory(Backend::Sqlite, Via::Http, cfg, None, sqlite_factory(dir.to_path_buf()), None).map_err(|e| Fail::Violation(format!("opening the data directory next to the server: {e:#}")))?;
     drv.db_path = Some(dir.to_path_buf());
     let mut turn = 0usize;
+    let mut conns: Vec<crate::sock::KeepAlive> = addrs.iter().map(|a| crate::sock::KeepAlive::new(*a)).collect();
     drv.ext = Some(Box::new(move |r: &HttpReq| -> HttpResp {
         let a = addrs[turn % addrs.len()];
         turn += 1;
+        if keep_alive {
+            let k = (turn - 1) % conns.len();
+            return match conns[k].call(r, Duration::from_secs(20)) {
+                Ok(resp) => resp,
+                Err(SockError::NoResponse(m)) | Err(SockError::Io(m)) => HttpResp { status: 0, crashed: Some(format!("no response from {a} on a persistent connection: {m}")), ..Default::default() },
+            };
+        }
         match exchange(a, r, if turn % 3 == 0 { Encoding::Chunked } else { Encoding::ContentLength }, &[], Duration::from_secs(20)) {
             Ok(resp) => resp,
             Err(SockError::NoResponse(m)) | Err(SockError::Io(m)) => HttpResp { status: 0, crashed: Some(format!("no response from {a}: {m}")), ..Default::default() },
@@ -270,7 +284,12 @@ pub fn check(bc: &BCase, st: &mut Stats) -> CheckResult {
     if !dpath.join("taskchampion-sync-server.sqlite3").is_file() {
         return v(format!("{what}: no database file in the configured data directory"));
     }
-    let drv = ext_driver(&dpath, &cfg, proc.addrs.clone())?;
+    // half of the cases speak over persistent connections shared by all clients
+    let keep_alive = bc.salt % 2 == 0;
+    if keep_alive {
+        st.label("c17:persistent-connections");
+    }
+    let drv = ext_driver_ka(&dpath, &cfg, proc.addrs.clone(), keep_alive)?;
     let mut or = Oracles::default();
     or.c02 = true;
     or.c12 = true;
@@ -312,7 +331,7 @@ pub fn check(bc: &BCase, st: &mut Stats) -> CheckResult {
     }
     // every listen address serves the same state
     for a in &proc.addrs {
-        let r = exchange(*a, &HttpReq { method: "GET".into(), path: "/".into(), headers: vec![], chunks: vec![] }, Encoding::ContentLength, &[], Duration::from_secs(10));
+        let r = exchange(*a, &HttpReq { method: "GET".into(), path: "/".into(), headers: vec![], chunks: vec![], stalls: vec![] }, Encoding::ContentLength, &[], Duration::from_secs(10));
         match r {
             Ok(r) if r.status == 200 => {}
             o => return v(format!("{what}: listen address {a} does not serve: {:?}", o.map(|r| r.status).map_err(|e| format!("{e:?}")))),
